@@ -17,6 +17,10 @@
            (disconnection collision);
      D09f  LE / enhanced client channels are filed in le_coc_channels by the response handler
            (not when the opening coroutine resumes); in this model both are one step;
+     D09g  cancelling (or aborting) a pending LE / enhanced open unregisters the channel(s) and
+           forgets the request; D09h futures are completed only if not already done;
+     D09i  a disconnection request whose source CID is not the channel's destination CID is
+           discarded; D09j a classic disconnection response is only accepted in WAIT_DISCONNECT;
      D07   enhanced server channels are filed in le_coc_channels under the peer's CID;
      D08   (C08) a Configure Response "unacceptable parameters" makes the channel adopt a
            suggested MTU / FCS value and send a complete Configure Request, or nothing.
@@ -247,6 +251,7 @@ Inductive event :=
                                              create_classic_channel *)
 | EClose (uid : Z)                        (* channel.disconnect() *)
 | EAbort (uid : Z)                        (* channel.abort() *)
+| ECancel (w : Z)                         (* the caller cancels the task awaiting call w *)
 | EWrite (uid k : Z)                      (* channel.write of k whole frames *)
 | EGrant (uid n : Z)                      (* send n credits for the channel *)
 | ERecv (h : Z) (f : frame)               (* a signalling frame arrives *)
@@ -287,6 +292,18 @@ Definition on_channel_closed (m : mgr) (u : Z) (c : chan) : mgr :=
   if is_uid (tget (c_conn c) (c_dcid c) (m_le m1)) u
   then with_le m1 (tdel (c_conn c) (c_dcid c) (m_le m1)) else m1.
 
+Definition wpending (m : mgr) (w : option Z) : bool :=
+  match w with Some x => Z.eqb (wout m x) O_PENDING | None => false end.
+
+(* create_le_credit_based_channel whose connect() was cancelled (by abort() or by the
+   caller): connect() forgets the request, the channel is unregistered (both only if the
+   entries are still this channel's) *)
+Definition le_open_abandoned (m : mgr) (u : Z) (c : chan) : mgr :=
+  let m1 := if is_uid (tget (c_conn c) (c_ref c) (m_reqs m)) (c_scid c)
+            then with_reqs m (tdel (c_conn c) (c_ref c) (m_reqs m)) else m in
+  if is_uid (tget (c_conn c) (c_scid c) (m_chs m1)) u
+  then with_chs m1 (tdel (c_conn c) (c_scid c) (m_chs m1)) else m1.
+
 (* LeCreditBasedChannel.abort / ClassicChannel.abort (repaired) *)
 Definition abort_chan (m : mgr) (u : Z) : mgr :=
   match hget m u with
@@ -299,7 +316,9 @@ Definition abort_chan (m : mgr) (u : Z) : mgr :=
                     else m in
           let m2 := wres_opt m1 (c_cw c) O_CANCELLED in
           let m3 := wres_opt m2 (c_dw c) O_RESULT in
-          hupd m3 u (fun c => flush_output (set_dw (set_cw c None) None))
+          let m4 := hupd m3 u (fun c => flush_output (set_dw (set_cw c None) None)) in
+          (* a pending connect() is cancelled: its coroutine cleans up *)
+          if wpending m (c_cw c) then le_open_abandoned m4 u c else m4
       | KCl =>
           let closing := match c_st c with SOpen | SWaitDisconnect | SOrphan => true | _ => false end in
           let m1 := if closing then on_channel_closed (hupd m u (fun c => set_st c SClosed)) u c
@@ -547,14 +566,16 @@ Definition recv_enh_req (m : mgr) (h id psm credits : Z) (scids : list Z) : mgr 
            end
   end.
 
+Definition enh_finish (m : mgr) (h id w : Z) (us dcids : list Z) (ok : bool) (credits o : Z) : mgr :=
+  let m1 := enh_each m h id us dcids ok credits in
+  wres (with_pend m1 (tdel h id (m_pend m1))) w o.
+
 Definition recv_enh_rsp (m : mgr) (h id credits result : Z) (dcids : list Z) : mgr * list frame :=
   match tget h id (m_pend m) with
   | None => (m, [])
   | Some (w, us) =>
       let ok := Z.eqb result R_OK in
-      let m1 := enh_each m h id us dcids ok credits in
-      let m2 := with_pend m1 (tdel h id (m_pend m1)) in
-      (wres m2 w (if ok then O_RESULT else O_ERROR), [])
+      (enh_finish m h id w us dcids ok credits (if ok then O_RESULT else O_ERROR), [])
   end.
 
 Definition recv_conn_req (m : mgr) (h id psm scid : Z) : mgr * list frame :=
@@ -589,8 +610,6 @@ Definition cl_connect_failed (m : mgr) (u : Z) (c : chan) : mgr :=
   let m1 := hupd m u (fun c => set_cw c None) in
   with_chs m1 (tdel (c_conn c) (c_scid c) (m_chs m1)).
 
-Definition wpending (m : mgr) (w : option Z) : bool :=
-  match w with Some x => Z.eqb (wout m x) O_PENDING | None => false end.
 
 Definition recv_conn_rsp (m : mgr) (h id dcid scid result : Z) : mgr * list frame :=
   match find_cl m h scid with
@@ -668,6 +687,8 @@ Definition recv_disc_req (m : mgr) (h id dcid scid : Z) : mgr * list frame :=
       match hget m u with
       | None => (m, [])
       | Some c =>
+          if negb (Z.eqb scid (c_dcid c)) then (m, [])      (* not a request for this channel *)
+          else
           match c_kind c with
           | KLe =>
               let m1 := hupd m u (fun c => set_st c SDisconnected) in
@@ -706,11 +727,15 @@ Definition recv_disc_rsp (m : mgr) (h id dcid scid : Z) : mgr * list frame :=
               | _ => (m, [])
               end
           | KCl =>
-              if negb cids_ok then (m, [])
-              else
-                let m1 := hupd m u (fun c => set_st c SClosed) in
-                let m2 := wres_opt m1 (c_dw c) O_RESULT in
-                (on_channel_closed (hupd m2 u (fun c => set_dw c None)) u c, [])
+              match c_st c with
+              | SWaitDisconnect =>
+                  if negb cids_ok then (m, [])
+                  else
+                    let m1 := hupd m u (fun c => set_st c SClosed) in
+                    let m2 := wres_opt m1 (c_dw c) O_RESULT in
+                    (on_channel_closed (hupd m2 u (fun c => set_dw c None)) u c, [])
+              | _ => (m, [])
+              end
           end
       end
   end.
@@ -805,6 +830,55 @@ Definition do_down (m : mgr) (h : Z) : mgr :=
                             else if memz w results then wres1 O_RESULT x else x) 0 (m_w m))
       (m_lesrv m) (m_clsrv m).
 
+(* ------------------------------------------------------------------ cancellation by the caller *)
+(* task.cancel() on the task awaiting call w (e.g. asyncio.wait_for timing out): the future
+   the coroutine awaits is cancelled and the coroutine's handlers run:
+   - create_le_credit_based_channel: the request is forgotten, the channel unregistered;
+   - create_enhanced_credit_based_channels: the channels are unregistered, the pending entry
+     removed (as after a refusal);
+   - create_classic_channel: connection_result is dropped, the channel unregistered (it keeps
+     its state; the ghost c_live marks it as no longer managed);
+   - disconnect(): only the future; the channel goes on disconnecting. *)
+Definition wget_m (m : mgr) (w : Z) : option waiter :=
+  if w <? 0 then None else nth_error (m_w m) (Z.to_nat w).
+
+Definition do_cancel (m : mgr) (w : Z) : mgr :=
+  match wget_m m w with
+  | None => m
+  | Some x =>
+      if negb (Z.eqb (w_out x) O_PENDING) then m
+      else
+        match w_kind x with
+        | WOpenEnh =>
+            match tget (w_conn x) (w_ref x) (m_pend m) with
+            | Some (w', us) =>
+                if Z.eqb w' w then enh_finish m (w_conn x) (w_ref x) w us [] false 0 O_CANCELLED else m
+            | None => m
+            end
+        | WOpen =>
+            let u := w_ref x in
+            match hget m u with
+            | Some c =>
+                if is_uid (c_cw c) w then
+                  match c_kind c with
+                  | KLe => le_open_abandoned (hupd (wres m w O_CANCELLED) u (fun c => set_cw c None)) u c
+                  | KCl =>
+                      let m1 := hupd (wres m w O_CANCELLED) u (fun c => set_live (set_cw c None) false) in
+                      with_chs m1 (tdel (c_conn c) (c_scid c) (m_chs m1))
+                  end
+                else m
+            | None => m
+            end
+        | WClose =>
+            let u := w_ref x in
+            match hget m u with
+            | Some c => if is_uid (c_dw c) w
+                        then hupd (wres m w O_CANCELLED) u (fun c => set_dw c None) else m
+            | None => m
+            end
+        end
+  end.
+
 (* ------------------------------------------------------------------ step / run *)
 Definition step (m : mgr) (e : event) : mgr * list frame :=
   match e with
@@ -814,6 +888,7 @@ Definition step (m : mgr) (e : event) : mgr * list frame :=
       else open_cl m h psm mode
   | EClose u => do_close m u
   | EAbort u => (abort_chan m u, [])
+  | ECancel w => (do_cancel m w, [])
   | EWrite u k => do_write m u k
   | EGrant u n => do_grant m u n
   | ERecv h f => recv m h f
@@ -881,18 +956,12 @@ Definition frame_ok (m : mgr) (h : Z) (f : frame) : bool :=
   | FConfRsp _ scid _ sugg =>
       (* a suggestion to switch FCS on is not modelled (the scenario managers do not support FCS) *)
       not_le_target m h scid && (Z.eqb sugg 0 || Z.eqb sugg 1)
-  | FDiscReq _ dcid _ =>
-      (* no disconnection request for a channel whose connection request is unanswered *)
+  | FDiscReq _ dcid scid =>
+      (* a disconnection request for a channel whose connection request is unanswered is
+         discarded by the source CID check, unless it carries that channel's (null)
+         destination CID *)
       match target_kind m h dcid with
-      | Some (KLe, SInit, _, _) | Some (KLe, SConnecting, _, _) => false
-      | _ => true
-      end
-  | FDiscRsp _ dcid scid =>
-      (* a classic disconnection response answers a disconnection request *)
-      match target_kind m h scid with
-      | Some (KCl, st, d, s) =>
-          negb (Z.eqb dcid d && Z.eqb scid s)
-          || match st with SWaitDisconnect => true | _ => false end
+      | Some (KLe, SInit, d, _) | Some (KLe, SConnecting, d, _) => negb (Z.eqb scid d)
       | _ => true
       end
   | _ => true
@@ -907,12 +976,6 @@ Definition ev_ok (m : mgr) (e : event) : bool :=
            (needs 255 other signalling packets in between; the code does not check) *)
         match tget h (nid m h) (m_pend m) with Some _ => false | None => true end
       else Z.eqb mode 0 || Z.eqb mode 3
-  | EAbort u =>
-      (* abort() before the connection request is answered is not a modelled operation *)
-      match hget m u with
-      | Some c => match c_kind c, c_st c with KLe, SConnecting => false | _, _ => true end
-      | None => true
-      end
   | EWrite u k =>
       (1 <=? k) && match hget m u with
                    | Some c => match c_kind c with KLe => true | KCl => false end
